@@ -10,12 +10,39 @@ FRAMERS_FOR = {'syncTcp': ['tcp', 'rtu', 'ascii', 'binary', 'tls'], 'syncSerial'
                'twistedTcp': ['tcp', 'rtu', 'ascii'], 'twistedUdp': ['tcp', 'rtu']}
 
 
-def gen_units(rng, single=None, hosted=None):
+def gen_units(rng, single=None, hosted=None, broken_p=0.0):
     single = rng.random() < 0.4 if single is None else single
     if single:
-        return True, [[0, execlib.gen_layout(rng)]]
+        return True, [[0, execlib.gen_layout(rng, broken_p)]]
     ids = hosted if hosted is not None else rng.choice([[1], [1, 2], [0, 1], [1, 255], [247], [2, 5, 17], [0]])
-    return False, [[u, execlib.gen_layout(rng)] for u in ids]
+    return False, [[u, execlib.gen_layout(rng, broken_p)] for u in ids]
+
+
+def frame_fc(framer, frame):
+    """the function code byte of a response ADU as written on the wire"""
+    try:
+        if framer == 'tcp':
+            return frame[7]
+        if framer == 'rtu':
+            return frame[1]
+        if framer == 'ascii':
+            return int(bytes(frame[3:5]).decode(), 16)
+        if framer == 'binary':
+            return frame[2]
+        if framer == 'tls':
+            return frame[0]
+    except Exception:  # noqa
+        return None
+    return None
+
+
+# well-formed requests of the classes whose execute methods are outside the model ("opaque" for the comparison)
+OTHER_PDUS = [[8, 0, 0, 0x12, 0x34], [8, 0, 1, 0, 0], [8, 0, 2, 0, 0], [8, 0, 3, 0x3A, 0], [8, 0, 10, 0, 0],
+              [8, 0, 11, 0, 0], [8, 0, 20, 0, 0], [8, 0, 21, 0, 4], [43, 14, 1, 0], [43, 14, 2, 0],
+              [43, 14, 3, 0x80], [43, 14, 4, 5], [17], [7], [11], [12], [24, 0, 0], [20, 7, 6, 0, 1, 0, 0, 0, 2],
+              [21, 9, 6, 0, 1, 0, 0, 0, 1, 0xAB, 0xCD],
+              # diagnostic sub-functions that decode but have no execute(): the catch-all answers SlaveFailure
+              [8, 0, 5, 0, 0], [8, 0, 9, 0, 0], [8, 0, 22, 0, 0]]
 
 
 def frame_request(framer, r, uid, tid):
@@ -57,7 +84,7 @@ def parse_responses(framer, frames):
         e = evs[0]
         m = e['msg']
         fc = (m['fc'] | 0x80) if m['t'] == 'exception' else None
-        out.append({'uid': e['uid'], 'tid': e['tid'], 'msg': m, 'exc_fc': fc})
+        out.append({'uid': e['uid'], 'tid': e['tid'], 'msg': m, 'exc_fc': fc, 'fc': frame_fc(framer, f)})
     return out
 
 
@@ -120,3 +147,22 @@ def compare(rep, case, real, a, where):
         model['dumps'] = a['dumps']
         realv['dumps'] = dumps
     return rep.compare(case, realv, model, where)
+
+
+def run_real_steps(c):
+    """like run_real, with the per-unit dumps before the first and after every step: (real, before, per_step)"""
+    sched = c.get('schedule') if c.get('schedule') is not None else [[0, ch] for ch in c['chunks']]
+    s = frontends.Session(c['frontend'], c['framer'], c['single'], c['units'], c['ignore_missing'], c['broadcast'])
+    try:
+        ids = [s.open() for _ in range(1 + max([i for i, _ in sched] + [0]))]
+        before = s.dumps()
+        outs, escs, alive, per_step = [], [], [], []
+        for ci, ch in sched:
+            o, e = s.feed(ids[ci], ch)
+            outs.append(o)
+            escs.append(e)
+            alive.append(s.conns[ids[ci]].alive())
+            per_step.append(s.dumps())
+        return (outs, escs, s.dumps(), alive), before, per_step
+    finally:
+        s.close()
